@@ -42,13 +42,16 @@ def parseAli (j : Json) : Except String Ali := do
   let dev ← getStr j "dev" >>= parseDev
   match fieldOpt j "vec" with
   | some v => pure ⟨dt, dev, .vec (← jsonToList jsonToInt v)⟩
-  | none => pure ⟨dt, dev, .nd (← getNatList j "nd")⟩
+  | none =>
+    -- not 1-D: the shape and the entries in storage order (`flat`, required: the info-only report
+    -- counts them)
+    pure ⟨dt, dev, .nd (← getNatList j "nd") (← getList jsonToInt j "flat")⟩
 
 def aliJ (a : Ali) : Json :=
   objJ ([("dtype", strJ (dtypeStr a.dtype)), ("dev", strJ (devStr a.dev))] ++
     match a.data with
     | .vec v => [("vec", listJ intJ v)]
-    | .nd s => [("nd", listJ natJ s)])
+    | .nd s fl => [("nd", listJ natJ s), ("flat", listJ intJ fl)])
 
 def parseRefData (j : Json) : Except String RefData := do
   match fieldOpt j "d1" with
